@@ -268,6 +268,78 @@ func c07ShiftRef(r *c07Ref, e c07Edit, kr bool) (*c07Ref, string) {
 	return &q, ""
 }
 
+// what the code does with an index, deleted or not (mirrors Spec.slideIdx)
+func c07SlideIdx(e c07Edit, i int) int {
+	if i < e.num {
+		return i
+	}
+	if i+e.off < 1 {
+		return 1
+	}
+	return i + e.off
+}
+
+// c07SlideOperands lists, for a tree with a deleted endpoint, the range-operand values the code is
+// expected to produce (Spec.slideRef); nil when one of them leaves the grid.
+func c07SlideOperands(t *c07Node, sheet, sheetN string, e c07Edit, kr bool) []string {
+	var ops []*c07Node
+	t.operands(&ops)
+	var out []string
+	for _, o := range ops {
+		if o.kind != "ref" {
+			out = append(out, o.s)
+			continue
+		}
+		target := o.ref.sheet
+		if target == "" {
+			target = sheetN
+		}
+		q := *o.ref
+		if target == sheet {
+			mv := func(v *int, abs, isRow bool) {
+				if isRow == e.rows && !(kr && !abs) {
+					*v = c07SlideIdx(e, *v)
+				}
+			}
+			switch q.shape {
+			case 0:
+				mv(&q.c1, q.ac1, false)
+				mv(&q.r1, q.ar1, true)
+			case 1:
+				mv(&q.c1, q.ac1, false)
+				mv(&q.r1, q.ar1, true)
+				mv(&q.c2, q.ac2, false)
+				mv(&q.r2, q.ar2, true)
+			case 2:
+				mv(&q.c1, q.ac1, false)
+				mv(&q.c2, q.ac2, false)
+			case 3:
+				mv(&q.r1, q.ar1, true)
+				mv(&q.r2, q.ar2, true)
+			}
+			okc := func(c int) bool { return c >= 1 && c <= 16384 }
+			okr := func(x int) bool { return x >= 1 && x <= 1048576 }
+			in := true
+			switch q.shape {
+			case 0:
+				in = okc(q.c1) && okr(q.r1)
+			case 1:
+				in = okc(q.c1) && okr(q.r1) && okc(q.c2) && okr(q.r2)
+			case 2:
+				in = okc(q.c1) && okc(q.c2)
+			case 3:
+				in = okr(q.r1) && okr(q.r2)
+			}
+			if !in {
+				return nil
+			}
+			q.lower = false
+		}
+		out = append(out, q.tokenValue())
+	}
+	return out
+}
+
 // shifted copy of a whole tree (only references to `sheet` move). status as above.
 func c07ShiftTree(n *c07Node, sheet, sheetN string, e c07Edit, kr bool) (*c07Node, string) {
 	m := *n
@@ -453,9 +525,20 @@ func c07Check(r *Run, c *c07Case, got string, gotErr bool) {
 			wantSpec = append(wantSpec, q.tokenValue())
 		}
 	}
+	specField := c07SpecField(status, wantSpec)
+	var slide []string
+	if status == "deleted" {
+		if slide = c07SlideOperands(c.tree, c.sheet, c.sheetN, c.e, c.kr); slide != nil {
+			hs := make([]string, len(slide))
+			for i, w := range slide {
+				hs[i] = hx(w)
+			}
+			specField = "S=deleted:" + strings.Join(hs, ",")
+		}
+	}
 	ln := 0
 	if !c.noOp {
-		ln = r.Op(opl, res+" "+c07SpecField(status, wantSpec))
+		ln = r.Op(opl, res+" "+specField)
 	}
 	nontrivial := status == "" && !gotErr && got != c.formula
 	r.Case(c.how+":"+opl, nontrivial)
@@ -463,6 +546,24 @@ func c07Check(r *Run, c *c07Case, got string, gotErr bool) {
 	switch {
 	case status == "deleted":
 		r.Stat("spec:endpoint-deleted")
+		// inside the excluded region the property demands nothing; the model's description of what the
+		// code does there (Spec.slideRef, theorem operand_rewrite_total) is compared with the code
+		if slide != nil && !c.noOp && !strings.Contains(c.how, "sharedChild") {
+			r.Stat("spec:endpoint-deleted:slide-checked")
+			gt := c07Tokens(got)
+			k, bad := 0, gotErr
+			for _, t := range gt {
+				if c07IsRange(t) {
+					if k >= len(slide) || !c07SameRef(t.TValue, slide[k]) {
+						bad = true
+					}
+					k++
+				}
+			}
+			if bad || k != len(slide) {
+				r.Fail("slide:mismatch", fmt.Sprintf("%s: formula %q, edit of %q %+v (an endpoint is deleted): got %q, the model of the code's sliding predicts operands %q", c.how, c.formula, c.sheet, c.e, got, slide), ln, replay)
+			}
+		}
 		return
 	case status == "grid":
 		r.Stat("spec:leaves-grid")
